@@ -10,7 +10,7 @@ claimed = {
  'C09': ('exploration', 'Every individual check of sampled whole runs (scripted exit/stdout/stderr outcomes of command and cross-check command from a colliding alphabet x all comparison options x --unchecked) is compared with an independent statement of the documented rule; argv of every invocation is checked. Sampling of the option x outcome classes with a measured coverage table.', '4 (C09)', 'deterministic simulation with scripted command outcomes + reference-rule oracle per check'),
  'C01': ('exploration', 'Seeded search over whole simulated runs across input x command model x strategy x -j x output mode x comparison options x cross-check x completion order; the final output file is re-judged by the command model under an independent statement of the acceptance rule and matched against the set of candidate files actually read and accepted.', '4 (C01)', 'whole-system deterministic simulation + command-side log oracle'),
  'C05': ('exploration', 'Seeded search over interleavings of the real strategy loops (main thread, pool task-feeder thread, workers, command latencies, queue look-ahead, abort-flag visibility, line-level pre-emption); the chain oracle is evaluated over the recorded history of every run. Sampling, not enumeration.', '4 (C05)', 'whole-system deterministic simulation + history oracle (chain of adopted inputs)'),
- 'C06': ('fault_enumeration', 'Per sampled run every crash/observation point inside every rewrite of the output file is enumerated: reader/SIGKILL observation at each boundary and one SIGINT replay per boundary, plus a sample of points outside rewrites. Runs themselves are sampled.', '3.1, 4 (C06)', 'deterministic simulation with crash-point enumeration (reader, SIGKILL, SIGINT, MemoryError)'),
+ 'C06': ('fault_enumeration', 'Per sampled run every crash/observation point inside every rewrite of the output file is enumerated: reader/SIGKILL observation at each boundary and one SIGINT (sometimes MemoryError) replay per boundary, plus a sample of points outside rewrites; additionally main must not go back to waiting for running checks between adopting a result and having written it. Runs themselves are sampled; in the quick tier a wall-clock cap per case bounds how many points of a long run are replayed.', '3.1, 4 (C06)', 'deterministic simulation with crash-point enumeration (reader, SIGKILL, SIGINT, MemoryError)'),
 }
 na = {
  'C07': 'pure function of a node list and two option bits: no schedule, clock, fault or peer to simulate (DESIGN 6)',
